@@ -58,6 +58,16 @@ fn rt_of(v: &toml::Value) -> RVal {
 
 /// a shape (and the value in it) that the document tree can be decoded into
 pub fn infer(rng: &mut Rng, v: &RVal, depth: usize) -> (Shape, Dyn) {
+    let (s, d) = infer_plain(rng, v, depth);
+    // any node may sit behind a newtype struct (transparent in the text and in `Dyn`)
+    if rng.chance(1, 8) {
+        (Shape::Newtype("N", Box::new(s)), d)
+    } else {
+        (s, d)
+    }
+}
+
+fn infer_plain(rng: &mut Rng, v: &RVal, depth: usize) -> (Shape, Dyn) {
     match v {
         RVal::Str(s) => {
             let mut it = s.chars();
@@ -163,6 +173,11 @@ pub fn infer(rng: &mut Rng, v: &RVal, depth: usize) -> (Shape, Dyn) {
 
 impl C13 {
     fn agree(&mut self, ctx: &mut Ctx, shape: &Shape, text: &str, must_be: Option<&Dyn>, origin: &str) {
+        self.agree_mode(ctx, shape, text, must_be, true, origin)
+    }
+
+    /// `must_succeed` false: a route may refuse, but one that succeeds must return `must_be`
+    fn agree_mode(&mut self, ctx: &mut Ctx, shape: &Shape, text: &str, must_be: Option<&Dyn>, must_succeed: bool, origin: &str) {
         let routes = match guarded(|| decode_routes(shape, text)) {
             Ok(r) => r,
             Err((loc, msg)) => {
@@ -193,7 +208,7 @@ impl C13 {
                 }
                 Err(e) => {
                     ctx.count(&format!("decode-err/{name}"));
-                    if must_be.is_some() {
+                    if must_be.is_some() && must_succeed {
                         ctx.violation(&format!("route-fails:{origin}"), format!("{name} cannot decode {text:?} into the type it was serialized from / inferred for: {}", e.lines().last().unwrap_or("")));
                         return;
                     }
@@ -222,7 +237,7 @@ impl Check for C13 {
     }
     fn workloads(&mut self, tier: Tier, _seed: u64) -> Vec<(String, u64)> {
         let k = if tier == Tier::Quick { 1 } else { 25 };
-        vec![("dyn-serialized".into(), 30_000 * k), ("doc-as-value".into(), 20_000 * k), ("doc-as-inferred-shape".into(), 25_000 * k), ("doc-as-foreign-shape".into(), 10_000 * k), ("try_from-vs-text".into(), 25_000 * k)]
+        vec![("dyn-serialized".into(), 30_000 * k), ("doc-as-value".into(), 20_000 * k), ("doc-as-inferred-shape".into(), 25_000 * k), ("doc-as-foreign-shape".into(), 10_000 * k), ("try_from-vs-text".into(), 25_000 * k), ("value-as-target".into(), 15_000 * k), ("variant-respelled".into(), 15_000 * k)]
     }
     fn run(&mut self, ctx: &mut Ctx, workload: &str, index: u64, rng: &mut Rng) {
         ctx.eval();
@@ -377,7 +392,281 @@ impl Check for C13 {
                     }
                 }
             }
+            "value-as-target" => self.value_as_target(ctx, rng),
+            "variant-respelled" => self.variant_respelled(ctx, rng),
             other => ctx.inconclusive(format!("unknown workload {other}")),
+        }
+    }
+}
+
+fn to_toml_value(v: &RVal) -> toml::Value {
+    match v {
+        RVal::Str(s) => toml::Value::from(s.as_str()),
+        RVal::Int(i) => toml::Value::from(*i),
+        RVal::Float(b) => toml::Value::from(f64::from_bits(*b)),
+        RVal::Bool(b) => toml::Value::from(*b),
+        RVal::Dt(d) => toml::Value::Datetime(obs::r_to_dt(d)),
+        RVal::Array(a) => toml::Value::Array(a.iter().map(to_toml_value).collect()),
+        RVal::Table(t) => {
+            let mut m = toml::Table::new();
+            for (k, x) in &t.entries {
+                m.insert(k.clone(), to_toml_value(x));
+            }
+            toml::Value::Table(m)
+        }
+    }
+}
+
+/// tables holding every kind of entry next to each other: scalars, arrays of scalars, arrays of
+/// tables, arrays mixing tables with other values, nested arrays, empty containers, sub-tables
+fn mixed_tree(rng: &mut Rng, depth: usize, budget: &mut i32) -> RTable {
+    let mut t = RTable::new();
+    let n = if depth == 0 { 1 + rng.below(6) } else { rng.below(5) };
+    for _ in 0..n {
+        if *budget <= 0 {
+            break;
+        }
+        *budget -= 1;
+        let k = if rng.chance(2, 3) { rng.pick(&["a", "m", "z", "B", "0", "k", "_", "b", "y", "aa", "1", "10"]).to_string() } else { refmodel::gen::gen_key(rng) };
+        if t.get(&k).is_some() {
+            continue;
+        }
+        let v = match rng.below(12) {
+            0 | 1 => refmodel::gen::gen_scalar(rng),
+            2 => RVal::Array((0..rng.below(4)).map(|_| refmodel::gen::gen_scalar(rng)).collect()),
+            3 if depth < 4 => RVal::Array((0..1 + rng.below(3)).map(|_| RVal::Table(mixed_tree(rng, depth + 1, budget))).collect()),
+            4 | 5 if depth < 4 => {
+                // tables and other values in one array, in any arrangement
+                let m = 2 + rng.below(3);
+                let mut a: Vec<RVal> = Vec::new();
+                for _ in 0..m {
+                    a.push(match rng.below(4) {
+                        0 => RVal::Table(mixed_tree(rng, depth + 1, budget)),
+                        1 => RVal::Array(vec![]),
+                        2 => RVal::Array(vec![RVal::Table(mixed_tree(rng, depth + 1, budget))]),
+                        _ => refmodel::gen::gen_scalar(rng),
+                    });
+                }
+                if !a.iter().any(|x| matches!(x, RVal::Table(_))) {
+                    let at = rng.below(a.len() + 1);
+                    a.insert(at, RVal::Table(mixed_tree(rng, depth + 1, budget)));
+                }
+                RVal::Array(a)
+            }
+            6 | 7 if depth < 4 => RVal::Table(mixed_tree(rng, depth + 1, budget)),
+            8 => RVal::Table(RTable::new()),
+            9 => RVal::Array(vec![]),
+            _ => refmodel::gen::gen_scalar(rng),
+        };
+        t.entries.push((k, v));
+    }
+    t
+}
+
+impl C13 {
+    /// target types toml::Value and toml::Table: text obtained by serializing a value must be read
+    /// back as that value by every route, and try_from must be the identity on it
+    fn value_as_target(&mut self, ctx: &mut Ctx, rng: &mut Rng) {
+        let mut budget = 4 + rng.below(30) as i32;
+        let tree = RVal::Table(mixed_tree(rng, 0, &mut budget));
+        ctx.set_input(&tree.show());
+        ctx.nontrivial(tree.hash());
+        let value = to_toml_value(&tree);
+        let table = match &value {
+            toml::Value::Table(t) => t.clone(),
+            _ => unreachable!(),
+        };
+        let texts = guarded(|| {
+            let mut v: Vec<(&'static str, Result<String, String>)> = Vec::new();
+            v.push(("toml::to_string(&Value)", toml::to_string(&value).map_err(|e| e.to_string())));
+            v.push(("toml::to_string(&Table)", toml::to_string(&table).map_err(|e| e.to_string())));
+            v.push(("toml::to_string_pretty(&Value)", toml::to_string_pretty(&value).map_err(|e| e.to_string())));
+            v.push(("toml::to_string_pretty(&Table)", toml::to_string_pretty(&table).map_err(|e| e.to_string())));
+            v.push(("toml_edit::ser::to_string(&Value)", toml_edit::ser::to_string(&value).map_err(|e| e.to_string())));
+            v.push(("toml_edit::ser::to_string_pretty(&Table)", toml_edit::ser::to_string_pretty(&table).map_err(|e| e.to_string())));
+            v.push(("Table::to_string", Ok(table.to_string())));
+            let a = toml::Value::try_from(&value).map_err(|e| e.to_string());
+            let b = toml::Table::try_from(&table).map_err(|e| e.to_string());
+            let c = toml::Value::try_from(&table).map_err(|e| e.to_string());
+            (v, a, b, c)
+        });
+        let (texts, a, b, c) = match texts {
+            Ok(x) => x,
+            Err((loc, msg)) => {
+                ctx.violation(&format!("panic:{}", crate::short_loc(&loc)), format!("serializing a toml::Value panicked at {loc}: {msg}"));
+                return;
+            }
+        };
+        for (name, r) in [("Value::try_from(&Value)", a.map(|x| rt_of(&x))), ("Table::try_from(&Table)", b.map(|x| obs::toml_table_to_r(&x))), ("Value::try_from(&Table)", c.map(|x| rt_of(&x)))] {
+            match r {
+                Ok(got) => {
+                    if let Some(d) = tree.diff(&got, KeyOrder::Any) {
+                        ctx.violation("try_from-not-identity-on-value", format!("{name}: {d}"));
+                        return;
+                    }
+                    ctx.count("value/try_from-identity");
+                }
+                Err(e) => {
+                    ctx.violation("try_from-fails-on-value", format!("{name} on {}: {e}", tree.show()));
+                    return;
+                }
+            }
+        }
+        for (ser, text) in texts {
+            let text = match text {
+                Ok(t) => t,
+                Err(e) => {
+                    ctx.violation("value-not-serializable", format!("{ser} refuses {}: {e}", tree.show()));
+                    return;
+                }
+            };
+            let r = guarded(|| {
+                let mut v: Vec<(&'static str, Result<RVal, String>)> = Vec::new();
+                v.push(("toml::from_str::<Value>", toml::from_str::<toml::Value>(&text).map(|x| rt_of(&x)).map_err(|e| e.to_string())));
+                v.push(("toml::from_str::<Table>", toml::from_str::<toml::Table>(&text).map(|x| obs::toml_table_to_r(&x)).map_err(|e| e.to_string())));
+                v.push(("Table::from_str", toml::Table::from_str(&text).map(|x| obs::toml_table_to_r(&x)).map_err(|e| e.to_string())));
+                v.push(("toml_edit::de::from_str::<Value>", toml_edit::de::from_str::<toml::Value>(&text).map(|x| rt_of(&x)).map_err(|e| e.to_string())));
+                v.push(("toml_edit::de::from_slice::<Table>", toml_edit::de::from_slice::<toml::Table>(text.as_bytes()).map(|x| obs::toml_table_to_r(&x)).map_err(|e| e.to_string())));
+                v.push(("from_document(DocumentMut)", toml_edit::DocumentMut::from_str(&text).map_err(|e| e.to_string()).and_then(|d| toml_edit::de::from_document::<toml::Value>(d).map(|x| rt_of(&x)).map_err(|e| e.to_string()))));
+                v.push(("from_document(ImDocument)", toml_edit::ImDocument::parse(text.clone()).map_err(|e| e.to_string()).and_then(|d| toml_edit::de::from_document::<toml::Table>(d).map(|x| obs::toml_table_to_r(&x)).map_err(|e| e.to_string()))));
+                v.push(("Value -> try_into::<Table>", toml::from_str::<toml::Value>(&text).map_err(|e| e.to_string()).and_then(|x| x.try_into::<toml::Table>().map(|t| obs::toml_table_to_r(&t)).map_err(|e| e.to_string()))));
+                v
+            });
+            match r {
+                Err((loc, msg)) => {
+                    ctx.violation(&format!("panic:{}", crate::short_loc(&loc)), format!("a decoding route panicked at {loc}: {msg}"));
+                    return;
+                }
+                Ok(list) => {
+                    for (route, got) in list {
+                        match got {
+                            Ok(got) => {
+                                if let Some(d) = tree.diff(&got, KeyOrder::Any) {
+                                    ctx.violation(&format!("route-value-differs:serialized-toml-value:{ser}"), format!("{route} reads {text:?} (from {ser}) differently from the value serialized: {d}"));
+                                    return;
+                                }
+                                ctx.count(&format!("value/ok/{ser}"));
+                            }
+                            Err(e) => {
+                                ctx.violation(&format!("route-fails:serialized-toml-value:{ser}"), format!("{route} cannot read {text:?} (from {ser}): {}", e.lines().last().unwrap_or("")));
+                                return;
+                            }
+                        }
+                    }
+                }
+            }
+        }
+    }
+
+    /// enum payloads spelled the other ways the decoders accept: a tuple variant as a table of
+    /// position keys (in and out of order), a struct variant with its fields in any order; as a
+    /// `[header]` table, as dotted keys and as an inline table
+    fn variant_respelled(&mut self, ctx: &mut Ctx, rng: &mut Rng) {
+        let scalar = |rng: &mut Rng| match rng.below(6) {
+            0 => Shape::Bool,
+            1 => Shape::I64,
+            2 => Shape::Str,
+            3 => Shape::F64,
+            4 => Shape::U8,
+            _ => Shape::Datetime,
+        };
+        let tuple_variant = rng.chance(2, 3);
+        let arity = if rng.chance(1, 12) { 11 + rng.below(2) } else { 2 + rng.below(3) };
+        let field_names = ["p", "q", "r", "s", "t", "u", "v", "w", "x", "y", "z", "o", "n"];
+        let payload_shapes: Vec<Shape> = (0..arity).map(|_| scalar(rng)).collect();
+        let variant = if tuple_variant { Variant::Tuple(payload_shapes.clone()) } else { Variant::Struct(payload_shapes.iter().enumerate().map(|(i, s)| (field_names[i], s.clone())).collect()) };
+        let vname = *rng.pick(&["Pair", "V", "Other"]);
+        let mut variants: Vec<(&'static str, Variant)> = vec![("Unit", Variant::Unit), (vname, variant)];
+        if rng.coin() {
+            variants.swap(0, 1);
+        }
+        let vidx = variants.iter().position(|(n, _)| *n == vname).unwrap();
+        let en = Shape::Enum("E", variants);
+        // the enum sits at the root, in a field, or in a field of a sub-struct
+        let place = rng.below(3);
+        let pre_shape = scalar(rng);
+        let pre = gdyn::gen_value(rng, &pre_shape);
+        let payload: Vec<Dyn> = payload_shapes.iter().map(|s| gdyn::gen_value(rng, s)).collect();
+        let ev = Dyn::Variant(vidx, Box::new(Dyn::Fields(payload.clone())));
+        let (shape, want, path): (Shape, Dyn, Vec<&str>) = match place {
+            0 => (en.clone(), ev.clone(), vec![]),
+            1 => (Shape::Struct("R", vec![("a", pre_shape.clone()), ("e", en.clone())]), Dyn::Fields(vec![pre.clone(), ev.clone()]), vec!["e"]),
+            _ => (
+                Shape::Struct("R", vec![("a", pre_shape.clone()), ("sub", Shape::Struct("S", vec![("e", en.clone())]))]),
+                Dyn::Fields(vec![pre.clone(), Dyn::Fields(vec![ev.clone()])]),
+                vec!["sub", "e"],
+            ),
+        };
+        // each payload element as value text
+        let mut cells: Vec<(String, String)> = Vec::new();
+        for (i, (sh, x)) in payload_shapes.iter().zip(&payload).enumerate() {
+            let txt = match guarded(|| serde::Serialize::serialize(&Ser(sh, x), toml_edit::ser::ValueSerializer::new()).map(|v| v.to_string())) {
+                Ok(Ok(t)) => t,
+                _ => {
+                    ctx.count("skipped/not-serializable");
+                    return;
+                }
+            };
+            let key = if tuple_variant { i.to_string() } else { field_names[i].to_string() };
+            cells.push((key, txt));
+        }
+        let in_order = rng.chance(1, 4);
+        if !in_order {
+            rng.shuffle(&mut cells);
+        }
+        let identity = cells.iter().enumerate().all(|(i, (k, _))| if tuple_variant { *k == i.to_string() } else { *k == field_names[i] });
+        let pre_txt = match guarded(|| serde::Serialize::serialize(&Ser(&pre_shape, &pre), toml_edit::ser::ValueSerializer::new()).map(|v| v.to_string())) {
+            Ok(Ok(t)) => t,
+            _ => {
+                ctx.count("skipped/not-serializable");
+                return;
+            }
+        };
+        let mut full: Vec<&str> = path.clone();
+        full.push(vname);
+        let spelling = rng.below(3);
+        let mut text = String::new();
+        match spelling {
+            0 => {
+                // [path.Variant] header
+                if place != 0 {
+                    text.push_str(&format!("a = {pre_txt}\n"));
+                }
+                text.push_str(&format!("[{}]\n", full.join(".")));
+                for (k, v) in &cells {
+                    text.push_str(&format!("{k} = {v}\n"));
+                }
+            }
+            1 => {
+                // dotted keys
+                for (k, v) in &cells {
+                    text.push_str(&format!("{}.{k} = {v}\n", full.join(".")));
+                }
+                if place != 0 {
+                    text.push_str(&format!("a = {pre_txt}\n"));
+                }
+            }
+            _ => {
+                // inline table
+                let body: Vec<String> = cells.iter().map(|(k, v)| format!("{k} = {v}")).collect();
+                if place != 0 {
+                    text.push_str(&format!("a = {pre_txt}\n"));
+                }
+                text.push_str(&format!("{} = {{ {} }}\n", full.join("."), body.join(", ")));
+            }
+        }
+        ctx.set_input(&format!("shape: {shape:?}\ntext: {text}"));
+        ctx.nontrivial(hash_bytes(text.as_bytes()));
+        let kind = if tuple_variant { "tuple-variant" } else { "struct-variant" };
+        let sp = ["header", "dotted", "inline"][spelling];
+        ctx.count(&format!("respelled/{kind}/{sp}/{}", if identity { "in-order" } else { "permuted" }));
+        if !tuple_variant {
+            // field order never matters for a struct variant
+            self.agree_mode(ctx, &shape, &text, Some(&want), true, &format!("respelled-{kind}"));
+        } else {
+            // position keys name positions: a route may insist on their order, but one that
+            // succeeds must put every element at the position its key names
+            self.agree_mode(ctx, &shape, &text, Some(&want), false, &format!("respelled-{kind}"));
         }
     }
 }
